@@ -111,7 +111,7 @@ def execute(scn):
     kinds = sorted(set(g['kind'] for g in scn['garbage']))
     out = {'violations': [], 'inconclusive': False, 'nontrivial': g_end > 0, 'digest': res.digest, 'shape': res.digest,
            'vtime': 0.0, 'steps': len(chunks), 'faults': {}, 'probes': {},
-           'cell': '%s/%s/per_read=%d' % (framing, scn['decoder'], pr)}
+           'cell': '%s/%s/per_read=%d/%s' % (framing, scn['decoder'], pr, scn.get('policy', 'reset'))}
     for g in scn['garbage']:
         out['faults']['garbage_' + g['kind']] = out['faults'].get('garbage_' + g['kind'], 0) + 1
     # obligations: frames that start at or after g_end + B
